@@ -242,9 +242,33 @@ func c02Excluded(tc l4Case, f *syntax.File, sh *shape) string {
 		if stmts[0].Pos().Line() == open.Line() && !forcesNewline(stmts[0], o) {
 			return true
 		}
-		// or because a comment that is flushed early has moved the printer's line counter past
-		// these lines, so none of the line breaks in between is kept
-		return hasComments(f)
+		// or because the printer's line counter is already past these lines, so none of the line
+		// breaks in between is kept: a comment was flushed early, or the construct sits in a
+		// redirection that is printed after arguments which come later in the source
+		if hasComments(f) {
+			return true
+		}
+		return sh.any(func(m syntax.Node) bool {
+			st, ok := m.(*syntax.Stmt)
+			if !ok {
+				return false
+			}
+			call, ok := st.Cmd.(*syntax.CallExpr)
+			if !ok {
+				return false
+			}
+			for _, r := range st.Redirs {
+				if r.Word == nil || !nodeWithin(r.Word, n) {
+					continue
+				}
+				for _, a := range call.Args {
+					if a.Pos().After(r.Pos()) {
+						return true
+					}
+				}
+			}
+			return false
+		})
 	}) {
 		return "C02-closing-paren-space"
 	}
@@ -336,8 +360,14 @@ func c02Excluded(tc l4Case, f *syntax.File, sh *shape) string {
 	// counter stays on the line of `y`, so what follows `]]` on its source line (`;;`, `&&` …)
 	// looks like it is on a later line and gets a line break the second pass does not make.
 	if !o.Single && sh.any(func(n syntax.Node) bool {
-		t, ok := n.(*syntax.TestClause)
-		return ok && t.X != nil && t.Right.Line() > t.X.End().Line()
+		switch t := n.(type) {
+		case *syntax.TestClause:
+			return t.X != nil && t.Right.Line() > t.X.End().Line()
+		case *syntax.ArithmCmd:
+			// the same for `((1` NEWLINE `))`
+			return t.X != nil && t.Right.Line() > t.X.End().Line()
+		}
+		return false
 	}) {
 		return "C02-test-close-line"
 	}
